@@ -229,8 +229,7 @@ func textREMatch(args ...tengo.Object) (ret tengo.Object, err error) {
 
 	matched, err := regexp.MatchString(s1, s2)
 	if err != nil {
-		ret = wrapError(err)
-		return
+		return wrapError(err), nil
 	}
 
 	if matched {
@@ -261,8 +260,7 @@ func textREFind(args ...tengo.Object) (ret tengo.Object, err error) {
 
 	re, err := regexp.Compile(s1)
 	if err != nil {
-		ret = wrapError(err)
-		return
+		return wrapError(err), nil
 	}
 
 	s2, ok := tengo.ToString(args[1])
@@ -374,7 +372,7 @@ func textREReplace(args ...tengo.Object) (ret tengo.Object, err error) {
 
 	re, err := regexp.Compile(s1)
 	if err != nil {
-		ret = wrapError(err)
+		return wrapError(err), nil
 	} else {
 		s, ok := doTextRegexpReplace(re, s2, s3)
 		if !ok {
@@ -429,8 +427,7 @@ func textRESplit(args ...tengo.Object) (ret tengo.Object, err error) {
 
 	re, err := regexp.Compile(s1)
 	if err != nil {
-		ret = wrapError(err)
-		return
+		return wrapError(err), nil
 	}
 
 	arr := &tengo.Array{}
@@ -461,7 +458,7 @@ func textRECompile(args ...tengo.Object) (ret tengo.Object, err error) {
 
 	re, err := regexp.Compile(s1)
 	if err != nil {
-		ret = wrapError(err)
+		return wrapError(err), nil
 	} else {
 		ret = makeTextRegexp(re)
 	}
@@ -929,8 +926,7 @@ func textParseBool(args ...tengo.Object) (ret tengo.Object, err error) {
 
 	parsed, err := strconv.ParseBool(s1.Value)
 	if err != nil {
-		ret = wrapError(err)
-		return
+		return wrapError(err), nil
 	}
 
 	if parsed {
@@ -970,8 +966,7 @@ func textParseFloat(args ...tengo.Object) (ret tengo.Object, err error) {
 
 	parsed, err := strconv.ParseFloat(s1.Value, i2)
 	if err != nil {
-		ret = wrapError(err)
-		return
+		return wrapError(err), nil
 	}
 
 	ret = &tengo.Float{Value: parsed}
@@ -1017,8 +1012,7 @@ func textParseInt(args ...tengo.Object) (ret tengo.Object, err error) {
 
 	parsed, err := strconv.ParseInt(s1.Value, i2, i3)
 	if err != nil {
-		ret = wrapError(err)
-		return
+		return wrapError(err), nil
 	}
 
 	ret = &tengo.Int{Value: parsed}
